@@ -256,3 +256,53 @@ func HarnessC05Int64() {
 	v2, err2 := l2.Int64()
 	verif.Assert(err2 == nil && v2 == v, "C05/int64/equal")
 }
+
+// C04 (reification kernel): Triple.Reify of a symbolic triple (temporal or
+// immutable predicate, node / literal / predicate object with its own kind and
+// anchor) yields the triple itself and exactly the three reification triples
+// on one blank node: _subject -> the subject, _predicate -> the predicate,
+// _object -> the object, each reification predicate following the kind and the
+// anchor of the reified fact's predicate.
+func HarnessC04Reify() {
+	s := symNode("s", 1, 1)
+	p := symPredicateFromID(verif.String("p", 1), 2*verif.Choice("pk", 2))
+	var o *triple.Object
+	switch verif.Choice("ok", 4) {
+	case 0:
+		o = triple.NewNodeObject(symNode("o", 1, 1))
+	case 1:
+		o = triple.NewLiteralObject(symLiteralText(verif.String("ot", 1)))
+	case 2:
+		o = triple.NewPredicateObject(symPredicateFromID(verif.String("op", 1), 0))
+	default:
+		o = triple.NewPredicateObject(symPredicateFromID(verif.String("op", 1), 2))
+	}
+	t, err := triple.New(s, p, o)
+	verif.Assume(err == nil)
+	ts, b, rerr := t.Reify()
+	verif.Reach("reified")
+	verif.Assert(rerr == nil && b != nil && len(ts) == 4, "C04/reify-kernel/four-triples")
+	if rerr != nil || len(ts) != 4 {
+		return
+	}
+	verif.Assert(ts[0] == t, "C04/reify-kernel/first-is-the-fact")
+	want := []string{"_subject", "_predicate", "_object"}
+	for i, r := range ts[1:] {
+		verif.Assert(r != nil && r.Subject() == b, "C04/reify-kernel/on-the-blank-node")
+		if r == nil {
+			return
+		}
+		rp := r.Predicate()
+		verif.Assert(string(rp.ID()) == want[i] && rp.Type() == p.Type(), "C04/reify-kernel/reification-predicate-follows-the-fact")
+		if p.Type() == predicate.Temporal && rp.Type() == predicate.Temporal {
+			a, _ := p.TimeAnchor()
+			ra, _ := rp.TimeAnchor()
+			verif.Assert(a.Equal(*ra), "C04/reify-kernel/reification-predicate-follows-the-fact")
+		}
+	}
+	n0, _ := ts[1].Object().Node()
+	verif.Assert(n0 == s, "C04/reify-kernel/subject-triple-points-to-the-subject")
+	p1, _ := ts[2].Object().Predicate()
+	verif.Assert(p1 == p, "C04/reify-kernel/predicate-triple-points-to-the-predicate")
+	verif.Assert(ts[3].Object().String() == o.String(), "C04/reify-kernel/object-triple-points-to-the-object")
+}
